@@ -152,12 +152,15 @@ theorem inject_txs (ds : DrvState) (j p : Nat) (b : Bytes) (h : TxS ds) :
   unfold World.inject
   dsimp only
   have key : ∀ r' : Radio, r'.txFifo = (ds.w.radio j).txFifo → r'.flags &&& 0x10 = (ds.w.radio j).flags &&& 0x10 →
+      (∀ e ∈ r'.rxFifo, e ∈ (ds.w.radio j).rxFifo ∨ e.pipe ≤ 5) →
       TxS { ds with w := ds.w.setRadio j r' } := by
-    intro r' h1 h2
+    intro r' h1 h2 h3
     unfold TxS TxQ
     show ((((ds.w.setRadio j r').radio ds.d.rid).txFifo = [] ∨ ((ds.w.setRadio j r').radio ds.d.rid).flags &&& 0x10 ≠ 0) ∧
-      ∀ e ∈ ((ds.w.setRadio j r').radio ds.d.rid).txFifo, e.kind = TxKind.payload) ∧
-      (((ds.w.setRadio j r').radio ds.d.rid).flags &&& 0x10 ≠ 0 → ds.d.status &&& 0x10 ≠ 0)
+      (∀ e ∈ ((ds.w.setRadio j r').radio ds.d.rid).txFifo, e.kind = TxKind.payload) ∧
+      ((ds.w.setRadio j r').radio ds.d.rid).txFifo.length ≤ 3) ∧
+      (((ds.w.setRadio j r').radio ds.d.rid).flags &&& 0x10 ≠ 0 → ds.d.status &&& 0x10 ≠ 0) ∧
+      ∀ e ∈ ((ds.w.setRadio j r').radio ds.d.rid).rxFifo, e.pipe ≤ 5
     rw [World.radio_setRadio]
     split
     · rename_i hh
@@ -166,7 +169,11 @@ theorem inject_txs (ds : DrvState) (j p : Nat) (b : Bytes) (h : TxS ds) :
       unfold TxS TxQ at hq
       rw [e] at hq
       rw [h1, h2]
-      exact hq
+      refine ⟨hq.1, hq.2.1, ?_⟩
+      intro x hx
+      rcases h3 x hx with hx | hx
+      · exact hq.2.2 x hx
+      · exact hx
     · exact h
   have hor : ∀ x : Nat, (x ||| 0x40) &&& 0x10 = x &&& 0x10 := by
     intro x
@@ -175,7 +182,17 @@ theorem inject_txs (ds : DrvState) (j p : Nat) (b : Bytes) (h : TxS ds) :
   repeat' split
   all_goals first
     | exact h
-    | exact key _ rfl (hor _)
+    | (rename_i hc
+       refine key _ rfl (hor _) ?_
+       intro e he
+       simp only [Bool.and_eq_true, decide_eq_true_eq] at hc
+       rcases List.mem_append.1 he with he | he
+       · exact Or.inl he
+       · right
+         simp only [List.mem_cons, List.not_mem_nil, or_false] at he
+         subst he
+         show p ≤ 5
+         omega)
 
 theorem mem_of_takeWhile {α} {p : α → Bool} {l : List α} {x : α} (h : x ∈ l.takeWhile p) : x ∈ l :=
   (List.takeWhile_sublist p).subset h
